@@ -118,6 +118,9 @@ def run(sc):
       d.mocap_quat.numpy()[...] *= sc["start_scale"]
     injected = "start"
     faults["unnormalised_start"] = 1
+    if r.random() < 0.5:
+      d.qvel.numpy()[0, :] = 0.0  # world 0 starts at rest: unnormalised quaternions that nothing rotates
+      faults["unnormalised_start_at_rest"] = 1
   viols = []
   key0 = f"{sc['model']['opt']['integrator']}|dt{sc['model']['opt']['timestep']}|{'+'.join(sorted(kinds))}"
   for k in range(sc["steps"]):
@@ -131,12 +134,23 @@ def run(sc):
       w = int(r.integers(0, nworld))
       a = quat_adr[int(r.integers(0, len(quat_adr)))]
       d.qpos.numpy()[w, a : a + 4] *= np.float32(r.choice([1e-3, 0.5, 3.0, 1e3]))
+      if r.random() < 0.5:
+        # ... on a joint that is not rotating at all (angular velocity exactly zero): the integrator's quaternion update is then the
+        # identity rotation, and whatever normalises must still do so
+        ji = quat_adr.index(a)
+        d.qvel.numpy()[w, ang_dofs[3 * ji : 3 * ji + 3]] = 0.0
+        faults["unnormalised_with_zero_angular_velocity"] = faults.get("unnormalised_with_zero_angular_velocity", 0) + 1
       just = "midrun"
       faults["unnormalised_midrun"] = faults.get("unnormalised_midrun", 0) + 1
     if mjm.nmocap and r.random() < 0.05:
       d.mocap_quat.numpy()[int(r.integers(0, nworld)), 0] = r.normal(0, 1, 4).astype(np.float32) * np.float32(r.choice([1.0, 0.01, 50.0]))
       faults["mocap_quat_unnormalised"] = faults.get("mocap_quat_unnormalised", 0) + 1
     speed = float(np.abs(d.qvel.numpy()[:, ang_dofs]).max()) if ang_dofs else 0.0
+    vmax = float(np.abs(d.qvel.numpy()).max()) if mjm.nv else 0.0
+    if not np.isfinite(vmax) or vmax > 1e5:
+      # a diverged world (velocities beyond 1e5 and growing, then inf/NaN): float32 overflow, not a statement about rotations
+      stats["skipped"]["diverged_state"] = 1
+      break
     mjw.step(m, d)
     stats["sim_time"] += float(mjm.opt.timestep) * nworld
     if scen.capacity_overflow(d):
